@@ -65,7 +65,7 @@ func writeEvidence(p *PropDef, tier string, master uint64, agg *WorkerResult, ha
 		"wall_s":      wall,
 		"violations":  len(vio),
 	}
-	os.MkdirAll(filepath.Join(verifRoot, "evidence"), 0777)
+	os.MkdirAll(filepath.Join(outRoot(), "evidence"), 0777)
 	b, _ := json.MarshalIndent(ev, "", " ")
-	os.WriteFile(filepath.Join(verifRoot, "evidence", p.ID+".json"), b, 0666)
+	os.WriteFile(filepath.Join(outRoot(), "evidence", p.ID+".json"), b, 0666)
 }
